@@ -38,6 +38,18 @@ theorem iterate_append {σ : Type} (step : Nat → σ → σ) (hid : σ → Tens
       (r1.1 ++ r2.1, r2.2) :=
   Proofs.Recurrent.iterate_append step hid n m t s
 
+-- concrete instance shared by the non-vacuity examples below: seq = 2, batch = 2, input = 3, hidden = 2 over
+-- `Int`, a bounded "squashing" activation `g`, a second activation `f`, packed weights filled with a pattern
+private def nv_A : Arith Int := ⟨0, (· + ·), (· * ·), (· - ·)⟩
+private def nv_f : Int → Int := fun v => v % 3
+private def nv_g : Int → Int := fun v => if v > 4 then 4 else if v < -4 then -4 else v
+private def nv_act : String → Option (Int → Int) := fun n => if n = "f" then some nv_f else if n = "g" then some nv_g else none
+private def nv_seqT (shape : List Nat) (k : Int) : Tensor Int := ⟨shape, (List.range (prod shape)).map fun (n : Nat) => ((n : Int) * k) % 5 - 2⟩
+private def nv_d : Spec.RecDims := ⟨2, 2, 3, 2⟩
+private def nv_X : Tensor Int := ⟨[2, 2, 3], [1, -1, 2, 0, 1, 1, 2, 1, -2, 1, 0, 1]⟩
+private def nv_H0 : Tensor Int := ⟨[1, 2, 2], [1, 0, -1, 2]⟩
+private def nv_C0 : Tensor Int := ⟨[1, 2, 2], [0, 1, 1, -1]⟩
+
 /-- an activation name outside the table is refused with the activation error (never ignored) -/
 theorem rnn_unknown_activation (A : Arith α) (one : α) (getAct : String → Option (α → α)) (name : String)
     (hn : getAct name = none) (hidden : Nat) (X W R : Tensor α) (B H0 : Option (Tensor α))
@@ -48,6 +60,11 @@ theorem rnn_unknown_activation (A : Arith α) (one : α) (getAct : String → Op
   simp only [bind, Except.bind, throw, throwThe, MonadExceptOf.throw, Option.isSome_none,
     Bool.false_eq_true, if_false, List.getElem?_cons_zero, hn] at h
   repeat (split at h <;> try cases h)
+
+-- non-vacuity: the activation table does not know "h"
+example (y : Tensor Int × Tensor Int) :
+    rnnOp nv_A 1 nv_act { hiddenSize := 2, activations := ["h"] } nv_X (nv_seqT [1, 2, 3] 3) (nv_seqT [1, 2, 2] 2) none none (some nv_H0) ≠ .ok y :=
+  rnn_unknown_activation nv_A 1 nv_act "h" (by decide) 2 nv_X (nv_seqT [1, 2, 3] 3) (nv_seqT [1, 2, 2] 2) none (some nv_H0) y
 
 /-- sequence_lens is refused -/
 theorem seq_lens_refused (A : Arith α) (one : α) (getAct : String → Option (α → α)) (at0 : RecAttrs)
@@ -68,6 +85,11 @@ theorem extractMatrices_get (M : Tensor α) (n hidden c : Nat) (hh : 2 ≤ hidde
       ∀ j k, j < hidden → k < c → m.get [j, k] = M.get [0, i * hidden + j, k] :=
   Proofs.Recurrent.extractMatrices_get M n hidden c hh hc hs ms h i hi
 
+-- non-vacuity: a packed (1, 3·2, 3) weight tensor (the GRU's W), block 1
+example : ∃ m, [(⟨[2, 3], [-2, 1, -1, 2, 0, -2]⟩ : Tensor Int), ⟨[2, 3], [1, -1, 2, 0, -2, 1]⟩, ⟨[2, 3], [-1, 2, 0, -2, 1, -1]⟩][1]? = some m ∧
+      m.shape = [2, 3] ∧ m.WF ∧ ∀ j k, j < 2 → k < 3 → m.get [j, k] = (nv_seqT [1, 6, 3] 3).get [0, 1 * 2 + j, k] :=
+  extractMatrices_get (nv_seqT [1, 6, 3] 3) 3 2 3 (by decide) (by decide) (by decide) rfl rfl _ (by decide) 1 (by decide)
+
 -- `hWX`, `hWW`, `hWR`, `hWB` are part of the fixed statement; these inputs are read through `Tensor.get` only
 set_option linter.unusedVariables false in
 /-- **RNN = ONNX recurrence** (partial): forward direction, any seq ≥ 1 and batch ≥ 1, with or
@@ -84,6 +106,14 @@ theorem rnn_partial (A : Arith α) (one : α) (hone : ∀ v, A.mul v one = v)
       Equiv y s.1 ∧ Equiv yh s.2 :=
   Proofs.Recurrent.rnn_partial A one hone getAct name f hact d X W R B H0 hh hi hb hsq hWH s hs
 
+-- non-vacuity: seq 2, batch 2, input 3, hidden 2, with bias and initial state; `nv_rnnS` is the ONNX value
+private def nv_rnnS : Tensor Int × Tensor Int := (⟨[2, 1, 2, 2], [-4, 0, 0, -4, 4, 0, -4, 4]⟩, ⟨[1, 2, 2], [4, 0, -4, 4]⟩)
+example : ∃ y yh, rnnOp nv_A 1 nv_act { hiddenSize := nv_d.hidden, activations := ["g"] } nv_X (nv_seqT [1, 2, 3] 3) (nv_seqT [1, 2, 2] 2) (some (nv_seqT [1, 4] 1)) none (some nv_H0) = .ok (y, yh) ∧
+      Equiv y nv_rnnS.1 ∧ Equiv yh nv_rnnS.2 :=
+  rnn_partial nv_A 1 Int.mul_one nv_act "g" nv_g rfl nv_d nv_X (nv_seqT [1, 2, 3] 3) (nv_seqT [1, 2, 2] 2) (some (nv_seqT [1, 4] 1)) (some nv_H0)
+    (by decide) (by decide) (by decide) (by decide) rfl rfl rfl (by intro b h; cases h; rfl) (by intro b h; cases h; rfl)
+    nv_rnnS (by decide)
+
 set_option linter.unusedVariables false in
 /-- **GRU = ONNX recurrence** (partial, same guards), both values of linear_before_reset -/
 theorem gru_partial (A : Arith α) (one : α) (hone : ∀ v, A.mul v one = v)
@@ -95,6 +125,17 @@ theorem gru_partial (A : Arith α) (one : α) (hone : ∀ v, A.mul v one = v)
     ∃ y yh, gruOp A one getAct { hiddenSize := d.hidden, activations := [n1, n2], linearBeforeReset := lbr } X W R B none H0 = .ok (y, yh) ∧
       Equiv y s.1 ∧ Equiv yh s.2 :=
   Proofs.Recurrent.gru_partial A one hone getAct n1 n2 f g h1 h2 lbr d X W R B H0 hh hi hb hsq hWH s hs
+
+-- non-vacuity: the same dimensions, both values of linear_before_reset; `nv_gruS lbr` is the ONNX value
+private def nv_gruS (lbr : Bool) : Tensor Int × Tensor Int :=
+  if lbr then (⟨[2, 1, 2, 2], [6, 4, -6, 6, 16, -4, 4, 8]⟩, ⟨[1, 2, 2], [16, -4, 4, 8]⟩)
+  else (⟨[2, 1, 2, 2], [6, 4, -4, 7, 16, -4, -11, 12]⟩, ⟨[1, 2, 2], [16, -4, -11, 12]⟩)
+example (lbr : Bool) : ∃ y yh, gruOp nv_A 1 nv_act { hiddenSize := nv_d.hidden, activations := ["f", "g"], linearBeforeReset := lbr } nv_X
+        (nv_seqT [1, 6, 3] 3) (nv_seqT [1, 6, 2] 2) (some (nv_seqT [1, 12] 1)) none (some nv_H0) = .ok (y, yh) ∧
+      Equiv y (nv_gruS lbr).1 ∧ Equiv yh (nv_gruS lbr).2 :=
+  gru_partial nv_A 1 Int.mul_one nv_act "f" "g" nv_f nv_g rfl rfl lbr nv_d nv_X (nv_seqT [1, 6, 3] 3) (nv_seqT [1, 6, 2] 2) (some (nv_seqT [1, 12] 1)) (some nv_H0)
+    (by decide) (by decide) (by decide) (by decide) rfl rfl rfl (by intro b h; cases h; rfl) (by intro b h; cases h; rfl)
+    (nv_gruS lbr) (by cases lbr <;> decide)
 
 set_option linter.unusedVariables false in
 /-- **LSTM = ONNX recurrence** (partial, same guards), every subset of bias / initial hidden state /
@@ -111,6 +152,17 @@ theorem lstm_partial (A : Arith α) (one : α) (hone : ∀ v, A.mul v one = v)
       Equiv y s.1 ∧ Equiv yh s.2.1 ∧ Equiv yc s.2.2 :=
   Proofs.Recurrent.lstm_partial A one hone getAct n1 n2 n3 f g h h1 h2 h3 d X W R B H0 C0 P hh hi hb hsq
     hWH hWC s hs
+
+-- non-vacuity: the same dimensions with bias, initial hidden and cell state and peepholes; `nv_lstmS` is the ONNX value
+private def nv_lstmS : Tensor Int × Tensor Int × Tensor Int :=
+  (⟨[2, 1, 2, 2], [0, 2, -4, 0, 8, 0, -8, -4]⟩, ⟨[1, 2, 2], [8, 0, -8, -4]⟩, ⟨[1, 2, 2], [8, -8, -16, -19]⟩)
+example : ∃ y yh yc, lstmOp nv_A 1 nv_act { hiddenSize := nv_d.hidden, activations := ["f", "g", "g"] } nv_X
+        (nv_seqT [1, 8, 3] 3) (nv_seqT [1, 8, 2] 2) (some (nv_seqT [1, 16] 1)) none (some nv_H0) (some nv_C0) (some (nv_seqT [1, 6] 4)) = .ok (y, yh, yc) ∧
+      Equiv y nv_lstmS.1 ∧ Equiv yh nv_lstmS.2.1 ∧ Equiv yc nv_lstmS.2.2 :=
+  lstm_partial nv_A 1 Int.mul_one nv_act "f" "g" "g" nv_f nv_g nv_g rfl rfl rfl nv_d nv_X
+    (nv_seqT [1, 8, 3] 3) (nv_seqT [1, 8, 2] 2) (some (nv_seqT [1, 16] 1)) (some nv_H0) (some nv_C0) (some (nv_seqT [1, 6] 4))
+    (by decide) (by decide) (by decide) (by decide) rfl rfl rfl (by intro b h; cases h; rfl) (by intro b h; cases h; rfl)
+    (by intro b h; cases h; rfl) (by intro b h; cases h; rfl) nv_lstmS (by decide)
 
 /-- hidden_size = 1 is refused although ONNX defines the result (known finding) -/
 theorem rnn_counterexample_hidden_1 :
